@@ -36,6 +36,19 @@ func newStringPrefixFilter(code *syntax.Code) StringPrefixFilter {
 	opts := code.FindOptimizations
 	minRequiredLength := opts.MinRequiredLength
 
+	// An invalid byte of the input is decoded to U+FFFD, so a literal U+FFFD in the pattern matches it;
+	// a search of the raw bytes for the encoded U+FFFD cannot see that. No byte-level filter then.
+	if hasReplacementChar(opts.LeadingPrefix) || hasReplacementChar(opts.FixedDistanceLiteral.S) ||
+		opts.FixedDistanceLiteral.C == utf8.RuneError ||
+		(opts.LiteralAfterLoop != nil && hasReplacementChar(opts.LiteralAfterLoop.String)) {
+		return nil
+	}
+	for _, p := range opts.LeadingPrefixes {
+		if hasReplacementChar(p) {
+			return nil
+		}
+	}
+
 	switch opts.FindMode {
 	case syntax.LeadingString_LeftToRight:
 		return stringIndexPrefixFilter(opts.LeadingPrefix, false, minRequiredLength)
@@ -63,6 +76,10 @@ func newStringPrefixFilter(code *syntax.Code) StringPrefixFilter {
 	default:
 		return nil
 	}
+}
+
+func hasReplacementChar(s string) bool {
+	return strings.ContainsRune(s, utf8.RuneError)
 }
 
 type asciiSetStringScanner struct {
